@@ -56,6 +56,25 @@ func c02(c *Ctx) {
 	c.CallArgs(rv, 0, "5", "6", "4", "7", "$0")
 	c.CallArgs(D+"parseFieldLiteral", 1, "6", "4")
 
+	// panic-site inventory over everything reachable from the decoder API
+	c.PanicInventory([]string{D + "Write", D + "Close", D + "DecodeFull", D + "SetMaxDynamicTableSize",
+		D + "SetAllowedMaxDynamicTableSize", D + "SetMaxStringLength", "http2/hpack.HuffmanDecode", "http2/hpack.HuffmanDecodeToString"}, nil,
+		map[string]Inv{
+			D + "at":                                      {"idx=2", "static index under 0<i<=len(static), dynamic index under i<=maxTableIndex: both guarded (guard-before obligations above)"},
+			D + "decodeString":                            {"assert=1", "bufPool only ever holds *bytes.Buffer (sync.Pool New)"},
+			D + "parseHeaderFieldRepr":                    {"idx=1", "d.buf[0]: the only caller (Write) loops on len(d.buf) > 0 (obligation below)"},
+			"(*http2/hpack.dynamicTable).evict":           {"idx=1", "ents[n] under n < table.len() (loop condition)"},
+			"(*http2/hpack.headerFieldTable).evictOldest": {"idx=4 panic=2", "n <= len(ents) panic guard first; evict passes n <= len; evictCount overflow unreachable below 2^64 insertions"},
+			"http2/hpack.HuffmanDecode":                   {"assert=1", "bufPool only ever holds *bytes.Buffer"},
+			"http2/hpack.HuffmanDecodeToString":           {"assert=1", "bufPool only ever holds *bytes.Buffer"},
+			"http2/hpack.buildRootHuffmanNode":            {"idx=1 panic=1", "table construction at first use over the constant code table (C04 checks the table)"},
+			"http2/hpack.readVarInt":                      {"panic=1", "panic(bad n) only for n outside 1..8; every call passes a constant in {4,5,6,7} (call-args obligations)"},
+		})
+	c.Guard(D+"Write", Calls(D+"parseHeaderFieldRepr"), "len($r.buf) > 0")
+	c.Callers(D+"parseHeaderFieldRepr", D+"Write")
+	c.Reject("(*http2/hpack.headerFieldTable).evictOldest", Indexing("$r.ents"), "$0 > len($r)")
+	c.Guard("(*http2/hpack.dynamicTable).evict", Indexing("$r.table.ents"), "φn < len(&$r.table)")
+
 	// at(): index tests precede table indexing
 	at := D + "at"
 	c.Reject(at, RetConst(1, "true"), "$0 == 0")
